@@ -13,12 +13,14 @@
  *               aws_sign.c uses: "%Y%m%d" and "%Y%m%dT%H%M%SZ"); returns the number of characters stored
  *               (NUL excluded), or 0 with unspecified buffer contents when the result including the NUL does
  *               not fit in max.  Other conversions fail a MODEL assertion.
+ *               Ghost: registers the result in g_aws_fix as a string of fixed known length (aws_stream.h).
  * So "date" and "datetime" are arbitrary strings of the documented shapes, and they agree on the date part
  * exactly when they were formatted from the same time() sample.
  */
 #include <stddef.h>
 #include <time.h>
 #include "aws_time.h"
+#include "aws_stream.h"
 
 struct aws_time_ghost g_aws_time;
 
@@ -123,6 +125,12 @@ strftime(char * s, size_t max, const char * fmt, const struct tm * tm)
 		if (fi < pos)
 			s[fi] = tmp[fi];
 	s[pos] = '\0';
+	/* ghost: the result is an internal string of fixed, known length (see aws_stream.h) */
+	__CPROVER_assert(g_aws_nfix < AWS_NFIX, "MODEL-BOUND aws_time: more than AWS_NFIX fixed-length strings");
+	__CPROVER_assume(g_aws_nfix < AWS_NFIX);
+	g_aws_fix[g_aws_nfix].ptr = s;
+	g_aws_fix[g_aws_nfix].len = pos;
+	g_aws_nfix++;
 	return (pos);
 }
 #pragma CPROVER check pop
